@@ -10,6 +10,7 @@ import (
 	"strings"
 	"time"
 
+	"go.uber.org/zap"
 	"go.uber.org/zap/zapcore"
 	"pgregory.net/rapid"
 )
@@ -31,10 +32,35 @@ type cfgSpec struct {
 //
 //go:noinline
 func mkReflectedEncoder(escapeHTML bool) func(io.Writer) zapcore.ReflectedEncoder {
+	return mkReflectedEncoderIndent(escapeHTML, "")
+}
+
+// mkReflectedEncoderIndent: the same func literal again (same code pointer), configured to indent - the kind of
+// encoder a neighbouring human-readable logger uses. Its multi-line output is that logger's own business; it must
+// never show up in the output of a logger configured with a non-indenting closure of the same literal.
+//
+//go:noinline
+func mkReflectedEncoderIndent(escapeHTML bool, indent string) func(io.Writer) zapcore.ReflectedEncoder {
 	return func(w io.Writer) zapcore.ReflectedEncoder {
 		enc := json.NewEncoder(w)
 		enc.SetEscapeHTML(escapeHTML)
+		if indent != "" {
+			enc.SetIndent("", indent)
+		}
 		return enc
+	}
+}
+
+// neighbourUsesIndentingEncoder encodes one entry with a reflected field through an encoder whose configuration
+// differs from cfg only in an indenting reflected-value encoder, and returns its buffer to the pool.
+func neighbourUsesIndentingEncoder(cfg zapcore.EncoderConfig, console bool) {
+	cfg.NewReflectedEncoder = mkReflectedEncoderIndent(false, "  ")
+	enc := zapcore.NewJSONEncoder(cfg)
+	if console {
+		enc = zapcore.NewConsoleEncoder(cfg)
+	}
+	if buf, err := enc.EncodeEntry(zapcore.Entry{Message: "neighbour"}, []zapcore.Field{zap.Reflect("r", map[string]int{"a": 1})}); err == nil {
+		buf.Free()
 	}
 }
 
